@@ -106,9 +106,10 @@ package PVM
 //@   props C05 C01 C03
 //@   requires wf: interp != nil && access_wf(interp.Memory, vx) && (offset == 1 || offset == 2 || offset == 4 || offset == 8)
 //@   ensures low: vx < 65536 ==> result1 == ExitPanic && result0 == 0
-//@   ensures [cases int(offset) 1..8] ok: vx >= 65536 && readable(interp.Memory, vx, offset) ==> result1 == ExitContinue && result0 == mload(interp.Memory, vx, offset)
+//@   ensures [cases int(offset)*8 + ite(crosses(vx, offset), int(4096 - vx%4096), 0) 8..71] ok: vx >= 65536 && readable(interp.Memory, vx, offset) ==> result1 == ExitContinue && result0 == mload(interp.Memory, vx, offset)
 //@   ensures fault: vx >= 65536 && !readable(interp.Memory, vx, offset) ==> is_fault(result1, vx, offset)
 //@   ensures frame: frame_only()
+//@   opt slow=2
 
 //@ func storeIntoMemory
 //@   props C05 C01 C03
